@@ -1,8 +1,8 @@
 SPECIFICATION Spec
 CONSTANTS
   KindSet = {"att", "agg", "proposal", "syncmsg", "contrib", "bcsub", "scsub", "prep"}
-  ConcSet = {1, 2, 3}
-  ItemSet = {1, 3}
+  ConcSet = {2, 3}
+  ItemSet = {1}
   NodeCounts = {3}
   DefaultConc = 16
   MaxCalls = 1
